@@ -17,6 +17,9 @@ def gen_frame(seed, cooldown=None, scenario=None, min_pre=5):
     n_pre = rd.choice([3, 4])                      # the shortest pre-periods on which the posterior exists
   n_test = rng.randint(3, 14)
   n_cool = (rng.choice([0, 0, 3, 6]) if cooldown is None else (rng.randint(2, 6) if cooldown else 0))
+  one_day = degenerate and cooldown is None and rd.random() < 0.25
+  if one_day:
+    n_test, n_cool = 1, 0                          # a test period of a single day
   nd = n_pre + n_test + n_cool
   base = [100.0]
   for _ in range(nd - 1):
@@ -40,10 +43,14 @@ def gen_frame(seed, cooldown=None, scenario=None, min_pre=5):
       cost.append(round(c * 8) / 8)
     geos.append({'id': g + 1, 'group': grp, 'response': resp, 'cost': cost})
   if degenerate:
-    kind = rd.choice(['negative', 'tiny-test', 'one-geo-each'])
+    kind = rd.choice(['negative', 'flat-control', 'one-geo-each'])
     if kind == 'negative':                         # responses are net changes: negative levels
       for g in geos:
         g['response'] = [v - 700.0 for v in g['response']]
+    elif kind == 'flat-control':                   # the control geos sell exactly the same amount on every analysed day
+      for g in geos:
+        if g['group'] == 1:
+          g['response'] = g['response'][:n_pre] + [g['response'][n_pre]] * (nd - n_pre)
     elif kind == 'one-geo-each':                   # one geo per group
       keep = [next(g for g in geos if g['group'] == 1), next(g for g in geos if g['group'] == 2)]
       geos[:] = keep
